@@ -767,6 +767,12 @@ class FnTranslator:
             return None
         path = '.'.join(reversed(parts))
         if len(parts) == 1:
+            actual = self.cls.get('_actual')
+            if actual:                           # round 3b: the attribute that plays a declared role
+                back = {v: k for k, v in actual.items()}
+                if path not in back:
+                    return None
+                path = back[path]
             return path if path in self.cls_state and path not in self.cls.get('virtual', ()) else None
         return self.cls.get('paths', {}).get(path)
 
@@ -2338,6 +2344,11 @@ def translate_module(module_name: str, specs: list, repo: str):
             # the import cache and the working tree differ: read the file (the check runs in a fresh process)
             fh.seek(0)
             src = fh.read()
+    for spec in specs:                           # round 3b: role -> attribute map, by evaluating the real class
+        c = spec.get('cls')
+        if c is not None and c.get('role_probe') and hasattr(mod, c['name']):
+            import py2lean_clsprep
+            c['_actual'] = py2lean_clsprep.resolve_roles(c, getattr(mod, c['name']))
     return translate_source(src, specs, module_name, os.path.relpath(path, os.path.abspath(repo)))
 
 
